@@ -17,7 +17,7 @@ const P: &str = "C09";
 
 fn family(ctx: &Ctx) -> Vec<Vec<u8>> {
     let tid: u128 = ((ctx.seeded(90) as u128) << 20 | 0x9) & ((1u128 << 96) - 1);
-    let bodies: Vec<Vec<Op>> = vec![
+    let mut bodies: Vec<Vec<Op>> = vec![
         vec![],
         vec![Op::Typed(Kind::Software, b"s".to_vec())],
         vec![Op::Typed(Kind::Software, b"stun".to_vec()), Op::Typed(Kind::Priority, vec![1, 2, 3, 4])],
@@ -25,7 +25,12 @@ fn family(ctx: &Ctx) -> Vec<Vec<u8>> {
         vec![Op::Typed(Kind::XorMappedAddress, vec![0, 1, 0xA1, 0x47, 0xE1, 0x12, 0xA6, 0x43])],
         vec![Op::Raw(0x7F00, vec![]), Op::Raw(0xFF01, vec![0xFF; 6])],
         vec![Op::Typed(Kind::ErrorCode, vec![0, 0, 4, 1, b'n', b'o'])],
+        // larger messages: the FINGERPRINT sits beyond offset 255 / 1023
+        vec![Op::Typed(Kind::Software, vec![b'L'; 251]), Op::Typed(Kind::Username, b"user".to_vec())],
     ];
+    if ctx.tier == Tier::Thorough {
+        bodies.push(vec![Op::Typed(Kind::Nonce, vec![b'n'; 700]), Op::Typed(Kind::Realm, vec![b'r'; 333]), Op::Raw(0xFF02, vec![0x5A; 41])]);
+    }
     let seals: Vec<Vec<Op>> = vec![vec![Op::Fp], vec![Op::Sha1(0), Op::Fp], vec![Op::Sha256(0), Op::Fp], vec![Op::Sha1(0), Op::Sha256(0), Op::Fp]];
     let mut out = Vec::new();
     for (i, b) in bodies.iter().enumerate() {
@@ -105,7 +110,7 @@ pub fn run(ctx: &Ctx) -> Report {
     Report {
         acc,
         exhaustive: true,
-        rule: format!("7 bodies x 4 sealing combinations ending in FINGERPRINT x 2 classes, built by the real builder; on each: the builder's CRC value vs the reference relation; every single-byte substitution (255 per byte, includes all single-bit flips); every burst of width 2..=32 at every start bit with both end bits set (all interior patterns up to width {full_w}, 3 shapes above); distinct_nontrivial = fingerprinted messages"),
+        rule: format!("8 bodies (one of ~300 bytes; thorough: one more of ~1150 bytes) x 4 sealing combinations ending in FINGERPRINT x 2 classes, built by the real builder; on each: the builder's CRC value vs the reference relation; every single-byte substitution (255 per byte, includes all single-bit flips); every burst of width 2..=32 at every start bit with both end bits set (all interior patterns up to width {full_w}, 3 shapes above); distinct_nontrivial = fingerprinted messages"),
         bounds: json!({"messages": n_msgs, "burst_exhaustive_width": full_w, "burst_max_width": 32}),
         assumptions: vec!["mutants the reference decoder accepts (FINGERPRINT dissolved into other well-formed attributes) fall under C02, not C09".into()],
         ..Default::default()
